@@ -353,6 +353,11 @@ func (e *Evaluator) evalCaseMatch(value *Cell, exprs []Expr) (bool, map[string]*
 			if err != nil {
 				return false, nil, err
 			}
+			if value.Value.Tag == ValueUnknown {
+				// a literal matches when subject == literal, and == is false
+				// for an unset subject whatever the literal
+				continue
+			}
 			cmp, err := value.Value.Compare(&caseValue.Value)
 			if err != nil {
 				return false, nil, e.error(expr.Token(), err.Error())
